@@ -291,6 +291,7 @@ def run(model: Model, rep: Report) -> None:
     ok4 = tail[-2:] == ["render(ltpage)", "self.write_text('\\x0c')"]
     r5.check(ok4, site(rl), rl.qualname, "the page is rendered, then exactly one form feed is written", why=f"tail statements {tail[-2:]}")
     _control_chars(model, rep)
+    _xml_attribute_bindings(model, rep)
 
 
 def _control_chars(model: Model, rep: Report) -> None:
@@ -314,3 +315,74 @@ def _control_chars(model: Model, rep: Report) -> None:
     wt = model.func(CV + "XMLConverter.write_text")
     s = "".join(unparse(wt.node).split())
     r6.check("ifself.stripcontrol:text=self.CONTROL.sub('',text)" in s and s.endswith("self.write(enc(text))"), site(wt), wt.qualname, "write_text strips (when asked) and then escapes what it writes", why="write_text changed")
+
+
+def _xml_attribute_bindings(model: Model, rep: Report) -> None:
+    """C11-R7: each XML attribute is filled from the item field of the same meaning (attribute name -> field)."""
+    r7 = rep.rule("C11-R7", "BIND", "XML attributes are filled from the corresponding fields of the layout item (font <- fontname, size <- size, bbox <- bbox, ...)", 12)
+    WANT = {
+        ("page", "id"): "item.pageid", ("page", "bbox"): "item.bbox", ("page", "rotate"): "item.rotate", ("textgroup", "bbox"): "item.bbox",
+        ("line", "linewidth"): "item.linewidth", ("line", "bbox"): "item.bbox",
+        ("rect", "linewidth"): "item.linewidth", ("rect", "bbox"): "item.bbox",
+        ("curve", "linewidth"): "item.linewidth", ("curve", "bbox"): "item.bbox", ("curve", "pts"): "item.get_pts()",
+        ("figure", "name"): "item.name", ("figure", "bbox"): "item.bbox",
+        ("textline", "bbox"): "item.bbox",
+        ("textbox", "id"): "item.index", ("textbox", "bbox"): "item.bbox",
+        ("text", "font"): "item.fontname", ("text", "bbox"): "item.bbox", ("text", "colourspace"): "item.ncs.name", ("text", "ncolour"): "item.graphicstate.ncolor", ("text", "size"): "item.size",
+        ("image", "src"): "name", ("image", "width"): "item.width", ("image", "height"): "item.height",
+    }
+    WRAPPERS = {"enc", "bbox2str", "str", "repr"}
+
+    def core(e: ast.AST) -> str:
+        while isinstance(e, ast.Call) and (dotted(e.func) or "").split(".")[-1] in WRAPPERS and len(e.args) == 1:
+            e = e.args[0]
+        return "".join(unparse(e).split())
+
+    seen = set()
+    for q, f in sorted(model.funcs.items()):
+        if not q.startswith(CV + "XMLConverter.") or isinstance(f.node, ast.Lambda):
+            continue
+        for n in walk_no_nested(f.node):
+            if isinstance(n, ast.JoinedStr):
+                # f-string: attribute name = the `name="` that ends the literal part before each hole
+                lits = [v.value if isinstance(v, ast.Constant) else None for v in n.values]
+                head = next((x for x in lits if x), "")
+                m0 = re.match(r"\s*<(\w+)", head)
+                if not m0:
+                    continue
+                tag0 = m0.group(1)
+                for i, v in enumerate(n.values):
+                    if isinstance(v, ast.FormattedValue) and i > 0 and isinstance(n.values[i - 1], ast.Constant):
+                        ma = re.search(r'(\w+)="$', str(n.values[i - 1].value))
+                        if ma:
+                            a0 = ma.group(1)
+                            want0 = WANT.get((tag0, a0))
+                            got0 = core(v.value)
+                            seen.add((tag0, a0))
+                            if want0 is None:
+                                r7.violation(site(f, n), q, f"<{tag0} {a0}=...> filled from `{got0}`", "attribute not in the reviewed binding table: add it to the table after reading")
+                            else:
+                                r7.check(got0 == want0, site(f, v), q, f"<{tag0} {a0}=...> <- {want0}", why=f"filled from `{got0}`")
+                continue
+            if not (isinstance(n, ast.BinOp) and isinstance(n.op, ast.Mod) and isinstance(n.left, ast.Constant) and isinstance(n.left.value, str)):
+                # implicit concatenation of literals is folded by the parser into one Constant
+                continue
+            fmt = n.left.value
+            m = re.match(r"\s*<(\w+)", fmt)
+            if not m:
+                continue
+            tag = m.group(1)
+            attrs = re.findall(r'(\w+)="%[-+ #0]*\d*(?:\.\d+)?[a-zA-Z]"', fmt)
+            args = list(n.right.elts) if isinstance(n.right, ast.Tuple) else [n.right]
+            if len(attrs) != len(args) or len(attrs) != len(re.findall(r"%[-+ #0]*\d*(?:\.\d+)?[a-zA-Z]", fmt)):
+                continue  # holes outside attribute values: not an attribute list
+            for a, e in zip(attrs, args):
+                want = WANT.get((tag, a))
+                got = core(e)
+                seen.add((tag, a))
+                if want is None:
+                    r7.violation(site(f, n), q, f"<{tag} {a}=...> filled from `{got}`", "attribute not in the reviewed binding table: add it to the table after reading")
+                else:
+                    r7.check(got == want, site(f, e), q, f"<{tag} {a}=...> <- {want}", why=f"filled from `{got}`: the XML reports another quantity than the tree holds (e.g. for vertical fonts LTChar.size is the glyph's width, not its height)")
+    missing = sorted(set(WANT) - seen)
+    r7.check(not missing, CV + "XMLConverter", CV + "XMLConverter", "every attribute of the reviewed table is written", why=f"not found: {missing}")
